@@ -47,6 +47,9 @@ where
         while let Some(character) = chars.next() {
             if character == b'%' {
                 let [hex_dig_1, hex_dig_2] = [chars.next()?, chars.next()?];
+                if !hex_dig_1.is_ascii_hexdigit() || !hex_dig_2.is_ascii_hexdigit() {
+                    return None;
+                }
                 let hex = format!("{}{}", hex_dig_1 as char, hex_dig_2 as char);
                 let byte = u8::from_str_radix(&hex, 16).ok()?;
                 decoded.push(byte);
